@@ -667,7 +667,7 @@ theorem slot_append_nil (sl : Slot) : ({ sl with inputs := sl.inputs ++ [] } : S
 theorem store_PC (c : Cache) (batch : List BTok) (pend : Nat → List Tok) (loc : Nat) (cells0 : List Cell)
     (hc : Coherent c) (hcfg : Cfg c) (hbv : BV c batch pend)
     (hpu : ∀ j, j < c.slots.length → pend j ≠ [] → (getSlot c.slots j).inUse = true)
-    (hperm : ∀ s, (view cells0 s).Perm (view c.cells s)) (hb0 : PosBound cells0)
+    (hperm : ∀ s, s < c.slots.length → (view cells0 s).Perm (view c.cells s)) (hb0 : PosBound cells0)
     (hfree : ∀ x ∈ (cells0.drop loc).take batch.length, x.seqs = []) :
     PC { c with cells := store cells0 loc batch } pend := by
   refine ⟨store_bound cells0 loc batch hb0 (fun t ht => by have := hbv.2 t ht; have := hcfg.ctx; omega), ?_⟩
@@ -681,7 +681,7 @@ theorem store_PC (c : Cache) (batch : List BTok) (pend : Nat → List Tok) (loc 
   rw [hv] at hsv
   have hsv2 : (view (store cells0 loc batch) j).Perm
       (view c.cells j ++ canonFrom c.slots[j].inputs.length (pend j)) :=
-    hsv.trans (List.Perm.append_right _ (hperm j))
+    hsv.trans (List.Perm.append_right _ (hperm j hj'))
   by_cases hp : pend j = []
   · simp only [hp, canonFrom, List.append_nil] at hsv2
     show SlotOK (store cells0 loc batch) { c.slots[j] with inputs := c.slots[j].inputs ++ pend j }
@@ -1020,11 +1020,17 @@ structure SInv (sv : Server) : Prop where
 def ph1Init (sv : Server) : Ph1 :=
   { sv := sv, obs := {}, outs := [], resume := none, seqIdx := (sv.nextSeq + sv.seqs.length - 1) % sv.seqs.length }
 
-/-- the layout handed over after a defrag (only used when no run of free cells is long enough) is a
-    relocation of the cells as they are when Forward starts: C06's obligation about `defrag` -/
-def AdoptOK (sv : Server) (adopt : Option (List Cell)) : Prop :=
-  ∀ cs, adopt = some cs → ∀ p, phase1 sv.seqs.length (ph1Init sv) = .ok p →
-    (∀ s, (view cs s).Perm (view p.sv.cache.cells s)) ∧ PosBound cs
+theorem seqEntries_eq_view (cells : List Cell) (s : Nat) : seqEntries cells s = view cells s := rfl
+
+/-- what the model's check of an adopted layout establishes -/
+theorem relocOK_spec (cells0 cs : List Cell) (n : Nat) (h : relocOK cells0 cs n = true) :
+    (∀ s, s < n → (view cs s).Perm (view cells0 s)) ∧ PosBound cs := by
+  unfold relocOK at h
+  simp only [Bool.and_eq_true, List.all_eq_true, decide_eq_true_eq, List.mem_range] at h
+  refine ⟨fun s hs => ?_, fun c hc => h.1 c hc⟩
+  have := h.2 s hs
+  rw [seqEntries_eq_view, seqEntries_eq_view] at this
+  exact List.isPerm_iff.mp this
 
 theorem canonFrom_eq_nil (k : Nat) (l : List Tok) (h : canonFrom k l = []) : l = [] := by
   cases l with
@@ -1036,7 +1042,9 @@ theorem processBatch_unfold (sv : Server) (adopt : Option (List Cell)) (sv' : Se
     ∃ p, phase1 sv.seqs.length (ph1Init sv) = .ok p ∧
       ((p.obs.batch = [] ∧ sv'.cache = p.sv.cache ∧ sv'.seqs = p.sv.seqs) ∨
        (p.obs.batch ≠ [] ∧ ∃ cells loc logits nx,
-          ((cells = evict p.sv.cache.window p.sv.cache.cells p.obs.batch ∧ adopt = none) ∨ adopt = some cells) ∧
+          ((cells = evict p.sv.cache.window p.sv.cache.cells p.obs.batch ∧ adopt = none) ∨
+            (adopt = some cells ∧
+              relocOK (evict p.sv.cache.window p.sv.cache.cells p.obs.batch) cells p.sv.cache.slots.length = true)) ∧
           findStartLoc cells p.obs.batch.length = some loc ∧
           logits = (p.outs.map fun bi =>
             nextTok p.sv.vocab p.sv.eosMod (visibleW p.sv.cache.window (store cells loc p.obs.batch)
@@ -1075,11 +1083,15 @@ theorem processBatch_unfold (sv : Server) (adopt : Option (List Cell)) (sv' : Se
         | none => simp [throw, throwThe, MonadExceptOf.throw] at h
         | some cs =>
           simp only at h
-          cases hf2 : findStartLoc cs p.obs.batch.length with
-          | none => simp [hf2, throw, throwThe, MonadExceptOf.throw] at h
-          | some loc =>
-            simp only [hf2, pure, Except.pure, Except.ok.injEq] at h
-            exact ⟨cs, loc, _, _, Or.inr rfl, hf2, rfl, h.symm⟩
+          cases hro : relocOK (evict p.sv.cache.window p.sv.cache.cells p.obs.batch) cs p.sv.cache.slots.length with
+          | false => simp [hro, throw, throwThe, MonadExceptOf.throw] at h
+          | true =>
+            simp only [hro, Bool.not_true, Bool.false_eq_true, if_false] at h
+            cases hf2 : findStartLoc cs p.obs.batch.length with
+            | none => simp [hf2, throw, throwThe, MonadExceptOf.throw] at h
+            | some loc =>
+              simp only [hf2, pure, Except.pure, Except.ok.injEq] at h
+              exact ⟨cs, loc, _, _, Or.inr ⟨rfl, hro⟩, hf2, rfl, h.symm⟩
 
 theorem SInv_of_R (sv : Server) (pend : Nat → List Tok) (n : Nat) (hn : n = sv.seqs.length) (h : R sv pend n n) :
     SInv sv := by
@@ -1105,7 +1117,7 @@ theorem SInv_of_R (sv : Server) (pend : Nat → List Tok) (n : Nat) (hn : n = sv
     cache is coherent again, every live sequence still owns its slot exclusively, no record exceeds the
     context, and nothing is left pending. -/
 theorem processBatch_SInv (sv : Server) (adopt : Option (List Cell)) (sv' : Server) (o : StepObs)
-    (hinv : SInv sv) (had : AdoptOK sv adopt) (h : processBatch sv adopt = .ok (sv', o)) :
+    (hinv : SInv sv) (h : processBatch sv adopt = .ok (sv', o)) :
     SInv sv' ∧ sv'.seqs.length = sv.seqs.length := by
   obtain ⟨p, hp1, hrest⟩ := processBatch_unfold sv adopt sv' o h
   have hP0 : PInv (ph1Init sv).sv (ph1Init sv).obs.batch (fun _ => []) := by
@@ -1144,10 +1156,10 @@ theorem processBatch_SInv (sv : Server) (adopt : Option (List Cell)) (sv' : Serv
       exact hpn _ (hP.own.valid i sq hl').1
   · -- Forward: StartForward (+ defrag), Put; then the per-sequence loop
     have hwin : p.sv.cache.window = none := hP.cfg.win
-    have hrel : (∀ s, (view cells s).Perm (view p.sv.cache.cells s)) ∧ PosBound cells := by
-      rcases hcells with ⟨rfl, _⟩ | hsome
-      · rw [hwin]; exact ⟨fun s => List.Perm.refl _, hP.coh.1⟩
-      · exact had cells hsome p hp1
+    have hrel : (∀ s, s < p.sv.cache.slots.length → (view cells s).Perm (view p.sv.cache.cells s)) ∧ PosBound cells := by
+      rcases hcells with ⟨rfl, _⟩ | ⟨_, hro⟩
+      · rw [hwin]; exact ⟨fun s _ => List.Perm.refl _, hP.coh.1⟩
+      · rw [hwin] at hro; exact relocOK_spec _ _ _ hro
     have hfree := findStartLoc_free cells _ loc hfind
     have hpc := store_PC p.sv.cache p.obs.batch pend loc cells hP.coh hP.cfg hP.bv hpu hrel.1 hrel.2 hfree
     have hR0 : R { p.sv with nextSeq := nx, cache := { p.sv.cache with cells := store cells loc p.obs.batch } } pend 0 0 :=
@@ -1218,7 +1230,7 @@ theorem key_mem_view (batch : List BTok) (b : BTok) (h : b ∈ batch) :
     processes that effective input from position 0 (`forward_exposes` on a new cache).  Whatever prefixes were
     reused, forked or shifted before, and whatever other sequences share the batch. -/
 theorem processBatch_outputs (sv : Server) (adopt : Option (List Cell)) (sv' : Server) (o : StepObs)
-    (hinv : SInv sv) (had : AdoptOK sv adopt) (h : processBatch sv adopt = .ok (sv', o)) :
+    (hinv : SInv sv) (h : processBatch sv adopt = .ok (sv', o)) :
     ∃ (p : Ph1) (pend : Nat → List Tok), phase1 sv.seqs.length (ph1Init sv) = .ok p ∧
       ∀ x ∈ o.outs, x.1 < p.sv.cache.slots.length ∧ ∃ pos : Nat,
         (getSlot p.sv.cache.slots x.1).inputs.length ≤ pos ∧
@@ -1254,10 +1266,10 @@ theorem processBatch_outputs (sv : Server) (adopt : Option (List Cell)) (sv' : S
     rw [ho, hbo.2.2] at hx
     cases hx
   · have hwin : p.sv.cache.window = none := hP.cfg.win
-    have hrel : (∀ s, (view cells s).Perm (view p.sv.cache.cells s)) ∧ PosBound cells := by
-      rcases hcells with ⟨rfl, _⟩ | hsome
-      · rw [hwin]; exact ⟨fun s => List.Perm.refl _, hP.coh.1⟩
-      · exact had cells hsome p hp1
+    have hrel : (∀ s, s < p.sv.cache.slots.length → (view cells s).Perm (view p.sv.cache.cells s)) ∧ PosBound cells := by
+      rcases hcells with ⟨rfl, _⟩ | ⟨_, hro⟩
+      · rw [hwin]; exact ⟨fun s _ => List.Perm.refl _, hP.coh.1⟩
+      · rw [hwin] at hro; exact relocOK_spec _ _ _ hro
     have hfree := findStartLoc_free cells _ loc hfind
     have hpc := store_PC p.sv.cache p.obs.batch pend loc cells hP.coh hP.cfg hP.bv hpu hrel.1 hrel.2 hfree
     have houts : o.outs = (p.outs.zip logits).map fun (bi, t) => ((p.obs.batch.getD bi ⟨0, 0, 0⟩).seq, t) := by
@@ -1408,7 +1420,7 @@ theorem SInv_admit (sv : Server) (h : SInv sv) (i si : Nat) (sq : Seq) (hi : i <
     `completion` (NewSequence, free entry, LoadCacheSlot, new Sequence), a load with every entry busy, or a
     `processBatch`. -/
 theorem runEvent_SInv (sv : Server) (now : Nat) (e : Event) (sv' : Server) (h : SInv sv)
-    (had : ∀ adopt, e = .step adopt → AdoptOK sv adopt) (hr : (runEvent sv now e).2 = some sv') : SInv sv' := by
+    (hr : (runEvent sv now e).2 = some sv') : SInv sv' := by
   cases e with
   | req keep np stops prompt =>
     unfold runEvent at hr
@@ -1449,33 +1461,23 @@ theorem runEvent_SInv (sv : Server) (now : Nat) (e : Event) (sv' : Server) (h : 
       · next svn o hpb =>
         simp only [Option.some.injEq] at hr
         subst hr
-        exact (processBatch_SInv sv adopt _ o h (had adopt rfl) hpb).1
-
-/-- the defrag hints of a history are relocations (see `AdoptOK`), at the states where they are used -/
-def HintsOK : Server → List Event → Nat → Prop
-  | _, [], _ => True
-  | sv, e :: es, now =>
-    (∀ adopt, e = .step adopt → AdoptOK sv adopt) ∧
-      match (runEvent sv now e).2 with
-      | none => True
-      | some sv' => HintsOK sv' es (now + 1)
+        exact (processBatch_SInv sv adopt _ o h hpb).1
 
 /-- **Every reachable state of the executable model satisfies the invariant** (induction over the event
     list of `runEvents`, the function the oracle folds over a `hist` line). -/
-theorem runEvents_SInv : ∀ (evs : List Event) (sv : Server) (now : Nat) (sv' : Server), SInv sv → HintsOK sv evs now →
+theorem runEvents_SInv : ∀ (evs : List Event) (sv : Server) (now : Nat) (sv' : Server), SInv sv →
     runEvents sv evs now = some sv' → SInv sv' := by
   intro evs
   induction evs with
-  | nil => intro sv now sv' h _ hr; simp only [runEvents, Option.some.injEq] at hr; subst hr; exact h
+  | nil => intro sv now sv' h hr; simp only [runEvents, Option.some.injEq] at hr; subst hr; exact h
   | cons e es ih =>
-    intro sv now sv' h hh hr
+    intro sv now sv' h hr
     unfold runEvents at hr
-    unfold HintsOK at hh
     cases hre : (runEvent sv now e).2 with
     | none => simp [hre] at hr
     | some sv1 =>
-      simp only [hre] at hr hh
-      exact ih sv1 (now + 1) sv' (runEvent_SInv sv now e sv1 h hh.1 hre) hh.2 hr
+      simp only [hre] at hr
+      exact ih sv1 (now + 1) sv' (runEvent_SInv sv now e sv1 h hre) hr
 
 /-- a brand-new runner (plain causal cache, repaired reset, context below 2^31) satisfies the invariant -/
 theorem SInv_init (parallel ctx batch : Nat) (multi canShift : Bool) (vocab eosMod : Nat) (se cc : Bool)
@@ -1499,45 +1501,15 @@ theorem SInv_init (parallel ctx batch : Nat) (multi canShift : Bool) (vocab eosM
 /-- **C07, clauses 1 and 2, for every history of the executable model.**  Start a new runner (any number of
     slots, context size, batch size, slot policy, with or without shiftFn; plain causal cache; tree's reset
     value), run ANY list of events (requests with any prompt / keep / numPredict / stop strings, loads with
-    every entry busy, processBatch passes).  If the run does not abort, then in the state reached the cached
+    every entry busy, processBatch passes with or without a layout adopted after a defrag).  If the run does not abort, then in the state reached the cached
     contents of every slot correspond exactly to the slot's recorded inputs, and every live sequence owns
     an in-use slot that no other live sequence has. -/
 theorem reachable_coherent_owned (parallel ctx batch : Nat) (multi canShift : Bool) (vocab eosMod : Nat) (se cc : Bool)
     (hctx : (ctx : Int) < maxI32) (evs : List Event) (sv : Server)
-    (hh : HintsOK { mkServer maxI32 parallel ctx batch multi canShift vocab eosMod with stopEarliest := se, crCounted := cc } evs 1)
     (hr : runEvents { mkServer maxI32 parallel ctx batch multi canShift vocab eosMod with stopEarliest := se, crCounted := cc } evs 1 = some sv) :
     Coherent sv.cache ∧ Owned sv := by
-  have := runEvents_SInv evs _ 1 sv (SInv_init parallel ctx batch multi canShift vocab eosMod se cc hctx) hh hr
+  have := runEvents_SInv evs _ 1 sv (SInv_init parallel ctx batch multi canShift vocab eosMod se cc hctx) hr
   exact ⟨this.coh, this.own⟩
-
-/-- histories in which Forward always finds a run of free cells without defrag need no hint hypothesis -/
-theorem hintsOK_of_no_defrag : ∀ (evs : List Event) (sv : Server) (now : Nat),
-    (∀ e ∈ evs, ∀ cs, e ≠ .step (some cs)) → HintsOK sv evs now := by
-  intro evs
-  induction evs with
-  | nil => intro sv now _; trivial
-  | cons e es ih =>
-    intro sv now hno
-    unfold HintsOK
-    refine ⟨?_, ?_⟩
-    · intro adopt he cs hcs
-      subst hcs
-      exact absurd he (hno e (List.mem_cons_self ..) cs)
-    · split
-      · trivial
-      · exact ih _ _ (fun e' he' => hno e' (List.mem_cons_of_mem _ he'))
-
-def Event.noHint : Event → Bool
-  | .step (some _) => false
-  | _ => true
-
-theorem hintsOK_of_noHint (evs : List Event) (sv : Server) (now : Nat) (h : evs.all Event.noHint = true) :
-    HintsOK sv evs now := by
-  apply hintsOK_of_no_defrag
-  intro e he cs hcs
-  have := List.all_eq_true.mp h e he
-  subst hcs
-  simp [Event.noHint] at this
 
 /-! ## non-vacuity: a concrete history that meets every hypothesis
 
@@ -1567,8 +1539,7 @@ example : ∃ sv, runEvents demoSv demoEvs 1 = some sv ∧ Coherent sv.cache ∧
   cases h : runEvents demoSv demoEvs 1 with
   | none => have := demo_runs; rw [h] at this; cases this
   | some sv =>
-    exact ⟨sv, rfl, reachable_coherent_owned 2 6 2 true true 7 0 true true (by decide) demoEvs sv
-      (hintsOK_of_noHint _ _ _ (by decide)) h⟩
+    exact ⟨sv, rfl, reachable_coherent_owned 2 6 2 true true 7 0 true true (by decide) demoEvs sv h⟩
 
 example : ∃ ins k, newSequence 4 [1, 2, 3, 4, 5, 6, 7] 2 = .ok (ins, k) ∧ ins = [1, 2, 6, 7] ∧ k = 2 := ⟨_, _, rfl, rfl, rfl⟩
 
